@@ -81,7 +81,23 @@ def decompositions(w, h, tier):
     t = w // 3
     out.append(("grid-empty-nan", [(0, 0, t, h, 0), (t, 0, 2 * t, h, max(t, h)), (2 * t, 0, w, h, 0)]))
     out.append(("nested3-nan", [(w // 3, h // 3, w // 2 + 10, h // 2 + 10, 0), (w // 6, h // 8, w - 40, h - 30, 3), (0, 0, w, h, 3)]))
+    # undefined bands on ONE side only (a read-out fault at the top of a chip, vignetting on one edge), a little thicker
+    # than the share of the mosaic that the outermost tile row / column holds; border = (top, bottom, left, right)
+    from vt.ref import tiling as _rt
+
+    gx0, gy0 = _rt.offsets(w, h)
+    sy = min(256 - gy0 % 256 + 6, h // 2 - 1)
+    sx = min(256 - gx0 % 256 + 6, w // 2 - 1)
+    c = 100
+    out.append(("vcut%d-nan-top-band" % c, [(0, 0, c + 10, h, 0), (c, 0, w, h, (sy, 0, 0, 0))]))
+    out.append(("vcut%d-nan-bottom-band" % c, [(0, 0, c + 10, h, (0, sy, 0, 0)), (c, 0, w, h, 0)]))
+    out.append(("hcut%d-nan-side-bands" % c, [(0, 0, w, c + 10, (0, 0, sx, 0)), (0, c, w, h, (0, 0, 0, sx))]))
     return out
+
+
+def _border(nb):
+    """nan_border as (top, bottom, left, right) row/column counts (an int = the same on all four sides)."""
+    return (nb, nb, nb, nb) if isinstance(nb, int) else tuple(nb)
 
 
 def make_inputs(M, wcs, rects, bottom_up):
@@ -92,11 +108,11 @@ def make_inputs(M, wcs, rects, bottom_up):
         # bottom_up: True / False for all inputs, or "mixed" / "mixed2" = alternating storage parities
         bu = bottom_up if isinstance(bottom_up, bool) else ((k % 2 == 0) if bottom_up == "mixed" else (k % 2 == 1))
         d = M[y0:y1, x0:x1].copy()
-        if nb:
-            d[:nb, :] = np.nan
-            d[-nb:, :] = np.nan
-            d[:, :nb] = np.nan
-            d[:, -nb:] = np.nan
+        bt, bb, bl, br = _border(nb)
+        d[:bt, :] = np.nan
+        d[d.shape[0] - bb :, :] = np.nan
+        d[:, :bl] = np.nan
+        d[:, d.shape[1] - br :] = np.nan
         w = sub_wcs(wcs, x0, y0)
         if bu:
             w, d = flip(w, d)
@@ -110,9 +126,11 @@ def assembled(M, rects):
     for (x0, y0, x1, y1, nb) in rects:
         sub = M[y0:y1, x0:x1]
         m = np.ones(sub.shape, bool)
-        if nb:
-            m[:nb, :] = m[-nb:, :] = False
-            m[:, :nb] = m[:, -nb:] = False
+        bt, bb, bl, br = _border(nb)
+        m[:bt, :] = False
+        m[m.shape[0] - bb :, :] = False
+        m[:, :bl] = False
+        m[:, m.shape[1] - br :] = False
         A[y0:y1, x0:x1][m] = sub[m]
     return A
 
